@@ -51,6 +51,7 @@ DEFAULT_KNOBS = Knobs(
     hostile_strings=False,  # thorough: strings with interior full stop / quotes
     argparse_domain=False,  # restrict types to what argparse can express
     p_code_default=0.5,  # for types that admit a code default
+    p_doc_states_default=0.0,  # prose already carries its "Defaults to X" sentence (as the repository's canonical IR does)
 )
 
 
@@ -292,6 +293,7 @@ class IRGen:
         for idx, name in enumerate(names):
             typ, tc, default, dc = self.typ_and_default(name)
             p = {}
+            states_default = False
             if self.chance(k.p_no_doc):
                 docc = "absent"
             else:
@@ -300,12 +302,19 @@ class IRGen:
                 p["typ"] = typ
             if default is not IRGen.MISSING:
                 p["default"] = default
+                if "doc" in p and k.p_doc_states_default and self.chance(k.p_doc_states_default) and not str(dc).startswith("code"):
+                    shown = "None" if default == NoneStr else default
+                    if isinstance(shown, str) and shown != "None" and typ and "str" in typ:
+                        shown = '"{}"'.format(shown)
+                    p["doc"] = "{}{} Defaults to {}".format(p["doc"], "" if p["doc"].endswith((".", ",")) else ".", shown)
+                    states_default = True
             params[name] = p
             pfeat[name] = {
                 "idx": idx,
                 "typ_class": tc,
                 "default_class": dc,
                 "doc_class": docc,
+                "doc_states_default": states_default,
                 "after_defaulted": seen_default,
                 "kind": "param",
             }
@@ -429,6 +438,7 @@ def case_flags(feat):
         "case_dotted_default": any(p["default_class"] in ("code_dotted_call", "str_dot", "float_pos", "float_neg", "float_small") for p in ps),
         "case_long_doc": any(p["doc_class"] == "long" for p in allp),
         "case_optional_word": any(p["doc_class"] == "optional_word" for p in ps),
+        "case_doc_states_default": any(p.get("doc_states_default") for p in ps),
         "case_only_return": feat["n_params"] == 0 and not feat["kwargs"] and feat["has_return"],
         "case_no_sections": feat["n_params"] == 0 and not feat["kwargs"] and not feat["has_return"],
         "case_return_no_typ": bool(ret) and ret["typ_class"] == "none",
